@@ -32,6 +32,7 @@ type c12Case struct {
 	Bound  int    `json:"bound,omitempty"` // preemption bound (-1 = unbounded)
 	Prefix []int  `json:"prefix,omitempty"`
 	Split  int    `json:"split,omitempty"`
+	Odd     bool  `json:"odd,omitempty"` // every input shard is a sub-slice starting at an odd offset of a larger buffer (as slices found displaced in a damaged file are)
 	NoSSSE3 bool  `json:"nossse3,omitempty"` // partition / par2g with the SSSE3 dispatch flag forced off
 }
 
@@ -47,11 +48,28 @@ func c12Code(d, p, g int) rsec16.Coder {
 	return c
 }
 
+// c12Displace returns copies of the shards that start at an odd address and have spare capacity behind them.
+func c12Displace(sh [][]byte) [][]byte {
+	out := make([][]byte, len(sh))
+	for i, s := range sh {
+		if s == nil {
+			continue
+		}
+		buf := make([]byte, len(s)+19)
+		copy(buf[1:], s)
+		out[i] = buf[1 : 1+len(s)]
+	}
+	return out
+}
+
 // c12Body runs encode + reconstruct with g goroutines and compares with
 // the single-goroutine result.
-func c12Body(r *core.Rec, seed int64, d, p, length, g int) bool {
+func c12Body(r *core.Rec, seed int64, d, p, length, g int, odd bool) bool {
 	data := c07Data(seed, d, length)
 	ref := c12Code(d, p, 1).GenerateParity(data)
+	if odd {
+		data = c12Displace(data)
+	}
 	coder := c12Code(d, p, g)
 	var par [][]byte
 	if pi := core.Catch(func() { par = coder.GenerateParity(data) }); pi != nil {
@@ -74,6 +92,9 @@ func c12Body(r *core.Rec, seed int64, d, p, length, g int) bool {
 		if i >= k {
 			dd[i] = append([]byte{}, data[i]...)
 		}
+	}
+	if odd {
+		dd, par = c12Displace(dd), c12Displace(par)
 	}
 	var err error
 	if pi := core.Catch(func() { err = coder.ReconstructData(dd, par) }); pi != nil {
@@ -144,6 +165,7 @@ func c12Gen(g *core.Gen) {
 		for _, procs := range []int{1, 2, 4, 16} {
 			for _, l := range []int{2, 16, 30, 32, 34, 64, 100, 256, 600, 4096} {
 				g.Emit(&c12Case{Kind: "race", Len: l, D: 3, P: 2, GLo: 1, GHi: 9, Procs: procs})
+				g.Emit(&c12Case{Kind: "race", Len: l, D: 3, P: 2, GLo: 1, GHi: 9, Procs: procs, Odd: true})
 			}
 			g.Emit(&c12Case{Kind: "race", Len: 0, Procs: procs})
 		}
@@ -153,6 +175,9 @@ func c12Gen(g *core.Gen) {
 	for l := 2; l <= maxLen; l += 2 {
 		g.Emit(&c12Case{Kind: "partition", Len: l, D: 2, P: 2, GLo: 1, GHi: 41})
 		g.Emit(&c12Case{Kind: "partition", Len: l, D: 3, P: 2, GLo: 1, GHi: 41})
+		if l <= 200 || g.Thorough() {
+			g.Emit(&c12Case{Kind: "partition", Len: l, D: 3, P: 2, GLo: 1, GHi: 41, Odd: true})
+		}
 	}
 	// codes with more rows (several missing rows per goroutine): short and medium shards x g 1..16
 	for l := 2; l <= 200; l += 2 {
@@ -190,7 +215,7 @@ func c12Run(ci interface{}, r *core.Rec) {
 	case "partition":
 		n := 0
 		for gg := c.GLo; gg < c.GHi; gg++ {
-			if !c12Body(r, r.Seed, c.D, c.P, c.Len, gg) {
+			if !c12Body(r, r.Seed, c.D, c.P, c.Len, gg, c.Odd) {
 				return
 			}
 			n++
@@ -231,7 +256,7 @@ func c12Run(ci interface{}, r *core.Rec) {
 		} else {
 			for rep := 0; rep < 20; rep++ {
 				for gg := c.GLo; gg < c.GHi; gg++ {
-					c12Body(r, r.Seed, c.D, c.P, c.Len, gg)
+					c12Body(r, r.Seed, c.D, c.P, c.Len, gg, c.Odd)
 					n++
 				}
 			}
@@ -255,7 +280,7 @@ func init() {
 		ID:      "C12",
 		AltArch: true, // the alternate binary here is the -race build
 		Level:   "model_checking",
-		Rule: "(i) partition arithmetic, full product through the real GenerateParity/ReconstructData: every even shard length 2..600 (+1024..65550) x goroutine count 1..40 (and > number of 16-byte units) x codes (2,2),(3,2), and every even length 2..200 x g 1..16 x codes (6,5),(9,8) (several missing rows per goroutine), compared with g=1; " +
+		Rule: "(i) partition arithmetic, full product through the real GenerateParity/ReconstructData: every even shard length 2..600 (+1024..65550) x goroutine count 1..40 (and > number of 16-byte units) x codes (2,2),(3,2), and every even length 2..200 x g 1..16 x codes (6,5),(9,8) (several missing rows per goroutine), compared with g=1; the (3,2) code also with every input shard displaced to an odd address inside a larger buffer; " +
 			"(ii) controlled-scheduler exploration of the real worker goroutines (sources instrumented from the current tree and injected with go build -overlay): for encode and reconstruct configurations (workers x kernel calls), EVERY interleaving at kernel-call/synchronisation granularity (unbounded), and every interleaving with <=2 (thorough 3) preemptions at statement granularity; per execution: output == single-goroutine bytes, recorded kernel access sets of different workers conflict-free, no deadlock; " +
 			"(iii) Create / Repair through par2 for g in 1..12 byte-identical to g=1; (iv) the same bodies free-running under the race detector (separate -race build, GOMAXPROCS 1,2,4,16). non-trivial = executions with >=2 runnable threads at some choice point / g>1 cases",
 		Assumptions: []string{"the controlled scheduler is sequentially consistent; weak-memory effects are covered only by the race-detector pass (no race => SC)", "scheduling points: spawn, exit, WaitGroup/Mutex operations, kernel calls, and (statement granularity) every statement of the instrumented files"},
